@@ -75,6 +75,30 @@ LOGIC = Logic(
         "lists_owned()":
             "forall(a, 'LoweringTask', forall(b, 'LoweringTask', implies(a != b and a.g_mine and b.g_mine, a.deps != b.deps and a.output_ops != b.output_ops)))"
             " and forall(a, 'LoweringTask', implies(a.g_mine, allocated(a) and allocated(a.deps) and allocated(a.output_ops)))",
+        # ---- well-formedness of the plan as the executor needs it (A-PLAN discharged here)
+        "edges_wf_pending(f, x)":
+            "forall(i, 'int', implies(0 <= i and i < seq_len(f._deps_of),"
+            "   (select(f._deps_of, i).g_inplan or select(f._deps_of, i) == x) and 0 <= select(f.g_back, i) and select(f.g_back, i) < seq_len(select(f._deps_of, i)._exe_deps)"
+            "   and select(select(f._deps_of, i)._exe_deps, select(f.g_back, i)) == f))"
+            " and forall(i, 'int', forall(k, 'int', implies(0 <= i and i < k and k < seq_len(f._deps_of),"
+            "   select(f._deps_of, i) != select(f._deps_of, k))))"
+            " and forall(j, 'int', implies(0 <= j and j < seq_len(f._exe_deps), select(f._exe_deps, j).g_inplan))",
+        "op_fields_ok(o)":
+            "o._state == OperationState.QUEUED and not o.g_started and o.main_task is not None and o.g_phase == 0"
+            " and o.g_marks == const_arr('Arr[int,bool]', False) and allocated(o._deps_of) and allocated(o._exe_deps)",
+        "plan_wf()":
+            "forall(i, 'int', implies(0 <= i and i < seq_len(all_ops), edges_wf(select(all_ops, i)) and op_fields_ok(select(all_ops, i))"
+            " and (select(all_ops, i).g_last is None or some(select(all_ops, i).g_last).g_inplan)))",
+        "plan_lists_owned()":
+            "forall(i, 'int', forall(k, 'int', implies(0 <= i and i < k and k < seq_len(all_ops),"
+            " select(all_ops, i)._exe_deps != select(all_ops, k)._exe_deps and select(all_ops, i)._deps_of != select(all_ops, k)._deps_of)))",
+        "inplan_listed()":
+            "forall(o, 'Operation', implies(o.g_inplan, 0 <= o.g_idx and o.g_idx < seq_len(all_ops) and select(all_ops, o.g_idx) == o))",
+        "init_wf()":
+            "forall(q, 'int', implies(0 <= q and q < seq_len(initial_operations), select(initial_operations, q).g_inplan and seq_len(select(initial_operations, q)._exe_deps) == 0"
+            " and select(initial_operations, q).g_iidx == q))"
+            " and forall(i, 'int', implies(0 <= i and i < seq_len(all_ops) and seq_len(select(all_ops, i)._exe_deps) == 0,"
+            " 0 <= select(all_ops, i).g_iidx and select(all_ops, i).g_iidx < seq_len(initial_operations) and select(initial_operations, select(all_ops, i).g_iidx) == select(all_ops, i)))",
         "cached_inv()":
             "forall(i, 'int', implies(0 <= i and i < seq_len(cached_tasks), (select(cached_tasks, i)._identifier in visited) and not run_again"
             " and not ShouldRun(select(cached_tasks, i)._identifier)"
@@ -83,14 +107,16 @@ LOGIC = Logic(
 )
 
 OPCTOR_ENS = ["result._state == initial_state", "seq_len(result._exe_deps) == 0 and seq_len(result._deps_of) == 0",
-              "fresh(result._exe_deps) and fresh(result._deps_of)",
+              "fresh(result._exe_deps) and fresh(result._deps_of) and allocated(result._exe_deps) and allocated(result._deps_of) and result._exe_deps != result._deps_of",
               "result.main_task is not None and some(result.main_task) == task", "result._stored_error is None", "not result.g_inplan"]
+# (the ghost fields g_started / g_phase / g_marks / g_last of a new operation are pristine by the precondition `ghost_state_pristine`:
+#  real code never assigns ghost fields, and the quantifier there ranges over all references, allocated or not)
 
 LOOP0_MOD = ["list@stack", "dict@visited", "list@all_ops", "list@initial_operations", "list@cached_tasks", "$alloc",
              "LoweringTask.state", "LoweringTask.g_ph", "LoweringTask.g_mine", "new:LoweringTask.task", "new:LoweringTask.deps", "new:LoweringTask.output_ops",
              "new@ltdeps", "new@ltops", "region:ltdeps", "region:ltops", "region:edeps", "region:depsof", "new@edeps", "new@depsof",
              "new:Operation._exe_deps", "new:Operation._deps_of", "new:Operation._state", "new:Operation._stored_error", "new:Operation._waiting_on",
-             "Operation.g_inplan", "Operation.g_idx", "Operation.g_tid",
+             "Operation.g_inplan", "Operation.g_idx", "Operation.g_tid", "Operation.g_back", "Operation.g_iidx", "Operation.g_last", "Operation.g_dpos",
              "g_sr_called", "RunExperiment._did_retrieve_version", "RunExperiment._most_relevant_version", "VersionIndex._last_timestamp",
              "new@cdops"]
 
@@ -150,6 +176,9 @@ CONTRACTS = [
                  C("no_decision_taken_yet", "forall(t, 'TaskIdentifier', not (t in g_sr_called))"),
                  C("no_lowering_entry_yet", "forall(a, 'LoweringTask', not a.g_mine)"),
                  C("no_operation_belongs_to_a_plan_yet", "forall(o, 'Operation', not o.g_inplan)"),
+                 C("dependencies_listed_once", "forall(t, 'TaskIdentifier', implies(Reach(t), forall(i, 'int', forall(k, 'int',"
+                                               " implies(0 <= i and i < k and k < seq_len(Deps(t)), select(Deps(t), i) != select(Deps(t), k))))))"),
+                 C("ghost_state_pristine", "forall(o, 'Operation', not o.g_started and o.g_phase == 0 and o.g_marks == const_arr('Arr[int,bool]', False) and o.g_last is None)"),
              ],
              modifies=LOOP0_MOD,
              ensures=[
@@ -173,9 +202,22 @@ CONTRACTS = [
                    "forall(i, 'int', forall(k, 'int', forall(j, 'int', implies(0 <= i and i < seq_len(result.all_ops) and 0 <= k and k < seq_len(result.all_ops)"
                    " and 0 <= j and j < seq_len(Deps(select(result.all_ops, i).g_tid)) and select(Deps(select(result.all_ops, i).g_tid), j) == select(result.all_ops, k).g_tid,"
                    " select(result.all_ops, k) in select(result.all_ops, i)._exe_deps))))", "C01"),
+                 C("plan_ops_marked", "all(x.g_inplan for x in result.all_ops) and"
+                                      " forall(o, 'Operation', implies(o.g_inplan, exists(i, 'int', 0 <= i and i < seq_len(result.all_ops) and select(result.all_ops, i) == o)))", "C01", "C02",
+                   needs=["operations", "inplan_operations_are_listed"]),
+                 C("plan_well_formed", "forall(o, 'Operation', implies(o.g_inplan, edges_wf(o) and o._state == OperationState.QUEUED and not o.g_started"
+                                       " and o.main_task is not None))", "C01", "C02", needs=["plan_well_formed", "inplan_operations_are_listed"]),
+                 C("ghost_initial", "forall(o, 'Operation', implies(o.g_inplan, o.g_phase == 0 and o.g_marks == const_arr('Arr[int,bool]', False)))", "C01", "C02",
+                   needs=["plan_well_formed", "inplan_operations_are_listed"]),
+                 C("initial_ops_are_the_ops_without_dependencies",
+                   "all(x.g_inplan and seq_len(x._exe_deps) == 0 for x in result.initial_ops) and"
+                   " forall(i, 'int', forall(k, 'int', implies(0 <= i and i < k and k < seq_len(result.initial_ops), select(result.initial_ops, i) != select(result.initial_ops, k)))) and"
+                   " forall(o, 'Operation', implies(o.g_inplan and seq_len(o._exe_deps) == 0, o in result.initial_ops))", "C01", "C02",
+                   needs=["initial_operations", "inplan_operations_are_listed"]),
              ],
              raises={"RuntimeError": [], "NotImplementedError": []},
              inline=["LoweringTask.initial", "add_exe_dep", "add_dep_of"],
+             # ---- exactly the preconditions of Executor.run_plan (contracts/executor.py): A-PLAN is a theorem here
              loops={
                  0: Loop(header="while len(stack) > 0:", modifies=LOOP0_MOD,
                          invariant=[
@@ -189,6 +231,10 @@ CONTRACTS = [
                              C("open_entries_are_on_the_stack", "open_only_on_stack()"),
                              C("objects_own_their_lists", "lists_owned()"),
                              C("cached", "cached_inv()"),
+                             C("inplan_operations_are_listed", "inplan_listed()", needs=["operations", "new_operation"]),
+                             C("plan_well_formed", "plan_wf()", needs=["operations", "inplan_operations_are_listed", "plan_lists_are_owned", "hooking", "new_operation", "canonical_entries", "ghost_state_pristine"]),
+                             C("plan_lists_are_owned", "plan_lists_owned()", needs=["operations", "plan_well_formed", "new_operation"]),
+                             C("initial_operations", "init_wf()", needs=["operations", "plan_well_formed", "plan_lists_are_owned", "inplan_operations_are_listed", "new_operation", "hooking"]),
                              C("count", "num_tasks_to_run == seq_len(all_ops)"),
                              C("root", "(task_id in visited) or (seq_len(stack) == 1 and lid(select(stack, 0)) == task_id)"),
                              C("decisions", "run_again or forall(t, 'TaskIdentifier', (t in g_sr_called) == (t in visited))"),
@@ -234,18 +280,24 @@ CONTRACTS = [
                                " and OutPath(select(Deps(lid(lt)), select(g_src, q))) is not None and select(dep_output_paths, q)[1] == some(OutPath(select(Deps(lid(lt)), select(g_src, q))))))", "C18", "C02"),
                          ]),
                  3: Loop(header="for dep in lt.deps:", index="a",
-                         modifies=["list@new_op._exe_deps", "region:depsof"],
+                         modifies=["list@new_op._exe_deps", "region:depsof", "Operation.g_back", "Operation.g_last", "Operation.g_dpos"],
                          invariant=[
                              # dependency j of the task is entry (n-1-j) of lt.deps: hooked once that entry has been processed
                              C("hooked_so_far", "forall(j, 'int', implies(0 <= j and j < seq_len(Deps(lid(lt))) and seq_len(Deps(lid(lt))) - 1 - j < a"
                                                 " and visited[select(Deps(lid(lt)), j)].g_ph == 2, opof(select(Deps(lid(lt)), j)) in new_op._exe_deps))"),
+                             C("hooking", "forall(i, 'int', implies(0 <= i and i < seq_len(all_ops), edges_wf_pending(select(all_ops, i), new_op) and op_fields_ok(select(all_ops, i)) and implies(select(all_ops, i).g_last == new_op, 0 <= select(all_ops, i).g_dpos and select(all_ops, i).g_dpos < seq_len(Deps(lid(lt))) and seq_len(Deps(lid(lt))) - 1 - select(all_ops, i).g_dpos < a and select(all_ops, i).g_tid == select(Deps(lid(lt)), select(all_ops, i).g_dpos)) and implies(select(all_ops, i).g_last != new_op, not (new_op in select(all_ops, i)._deps_of)) and (select(all_ops, i).g_last is None or some(select(all_ops, i).g_last).g_inplan or some(select(all_ops, i).g_last) == new_op)))", needs=["operations", "plan_lists_are_owned", "new_operation", "canonical_entries", "dependencies_listed_once", "inplan_operations_are_listed", "closure_loaded_and_acyclic", "hooking", "this_dependency"]),
+                             C("new_operation", "not new_op.g_inplan and seq_len(new_op._deps_of) == 0 and allocated(new_op._exe_deps) and allocated(new_op._deps_of) and op_fields_ok(new_op) and forall(j, 'int', implies(0 <= j and j < seq_len(new_op._exe_deps), select(new_op._exe_deps, j).g_inplan)) and forall(i, 'int', implies(0 <= i and i < seq_len(all_ops), select(all_ops, i)._exe_deps != new_op._exe_deps and select(all_ops, i)._deps_of != new_op._deps_of and select(all_ops, i) != new_op))", needs=["operations", "hooking", "canonical_entries", "inplan_operations_are_listed"]),
+                             C("plan_lists_are_owned", "plan_lists_owned()", needs=[]),
                          ]),
                  4: Loop(header="for dep_op in visited[dep.task.identifier].output_ops:", index="b",
-                         modifies=["list@new_op._exe_deps", "region:depsof"],
+                         modifies=["list@new_op._exe_deps", "region:depsof", "Operation.g_back", "Operation.g_last", "Operation.g_dpos"],
                          invariant=[
                              C("hooked_so_far", "forall(j, 'int', implies(0 <= j and j < seq_len(Deps(lid(lt))) and seq_len(Deps(lid(lt))) - 1 - j < a"
                                                 " and visited[select(Deps(lid(lt)), j)].g_ph == 2, opof(select(Deps(lid(lt)), j)) in new_op._exe_deps))"),
                              C("this_dependency", "implies(b >= 1, select(visited[lid(dep)].output_ops, 0) in new_op._exe_deps)"),
+                             C("hooking", "forall(i, 'int', implies(0 <= i and i < seq_len(all_ops), edges_wf_pending(select(all_ops, i), new_op) and op_fields_ok(select(all_ops, i)) and implies(select(all_ops, i).g_last == new_op, 0 <= select(all_ops, i).g_dpos and select(all_ops, i).g_dpos < seq_len(Deps(lid(lt))) and seq_len(Deps(lid(lt))) - 1 - select(all_ops, i).g_dpos < a + ite(b >= 1, 1, 0) and select(all_ops, i).g_tid == select(Deps(lid(lt)), select(all_ops, i).g_dpos)) and implies(select(all_ops, i).g_last != new_op, not (new_op in select(all_ops, i)._deps_of)) and (select(all_ops, i).g_last is None or some(select(all_ops, i).g_last).g_inplan or some(select(all_ops, i).g_last) == new_op)))", needs=["operations", "plan_lists_are_owned", "new_operation", "canonical_entries", "dependencies_listed_once", "inplan_operations_are_listed", "closure_loaded_and_acyclic", "this_dependency"]),
+                             C("new_operation", "not new_op.g_inplan and seq_len(new_op._deps_of) == 0 and allocated(new_op._exe_deps) and allocated(new_op._deps_of) and op_fields_ok(new_op) and forall(j, 'int', implies(0 <= j and j < seq_len(new_op._exe_deps), select(new_op._exe_deps, j).g_inplan)) and forall(i, 'int', implies(0 <= i and i < seq_len(all_ops), select(all_ops, i)._exe_deps != new_op._exe_deps and select(all_ops, i)._deps_of != new_op._deps_of and select(all_ops, i) != new_op))", needs=["operations", "hooking", "canonical_entries", "inplan_operations_are_listed"]),
+                             C("plan_lists_are_owned", "plan_lists_owned()", needs=[]),
                          ]),
              },
              ghost=[
@@ -289,5 +341,8 @@ CONTRACTS = [
                        before="lt.output_ops.append(new_op)"),
                  Ghost("new_op.g_tid = lt.task._identifier\nnew_op.g_inplan = True\nnew_op.g_idx = len(all_ops)\nlt.g_ph = 2",
                        after="lt.output_ops.append(new_op)"),
+                 Ghost("dep_op.g_back = store(dep_op.g_back, len(dep_op._deps_of) - 1, len(new_op._exe_deps) - 1)\ndep_op.g_last = new_op\n"
+                       "dep_op.g_dpos = seq_len(Deps(lid(lt))) - 1 - a", after="dep_op.add_dep_of(new_op)"),
+                 Ghost("new_op.g_iidx = len(initial_operations)", before="initial_operations.append(new_op)"),
              ]),
 ]
